@@ -46,6 +46,14 @@ P = dict(
              flavours={"quick": ["plain-cc", "asan-cc"], "thorough": ["plain-cc", "asan-cc"]}, shards={"quick": 16, "thorough": 16}),
         Unit("C16_unary_double", "harness/C16_unary.cpp", defs=tdefs("double"),
              flavours={"quick": ["plain-cc", "asan-cc"], "thorough": ["plain-cc", "asan-cc"]}, shards={"quick": 16, "thorough": 16}),
+        Unit("C16_binary_float", "harness/C16_binary.cpp", defs=tdefs("float"),
+             flavours={"quick": ["plain-cc", "asan-cc"], "thorough": ["plain-cc", "asan-cc"]}, shards={"quick": 16, "thorough": 16}),
+        Unit("C16_binary_double", "harness/C16_binary.cpp", defs=tdefs("double"),
+             flavours={"quick": ["plain-cc", "asan-cc"], "thorough": ["plain-cc", "asan-cc"]}, shards={"quick": 16, "thorough": 16}),
+        Unit("C16_complex_float", "harness/C16_complex.cpp", defs=tdefs("float"),
+             flavours={"quick": ["plain-cc", "asan-cc"], "thorough": ["plain-cc", "asan-cc"]}, shards={"quick": 8, "thorough": 16}),
+        Unit("C16_complex_double", "harness/C16_complex.cpp", defs=tdefs("double"),
+             flavours={"quick": ["plain-cc", "asan-cc"], "thorough": ["plain-cc", "asan-cc"]}, shards={"quick": 8, "thorough": 16}),
     ],
     floor={"quick": 1000000, "thorough": 10000000},
     assumptions=[],
